@@ -23,5 +23,5 @@ PY
 done
 for d in benign/C*; do
   id=$(basename $d)
-  sh tools/benigneval.sh $id $d/benign.diff | head -1
+  sh tools/benigneval.sh $id $(pwd)/$d/benign.diff | head -1
 done
